@@ -289,6 +289,7 @@ class Ctx:
         self.inputs = {}           # declared input variables name -> z3 var
         self.deferred = []
         self.exact = {}            # input name -> exact rational value of each shadow sample (pinned-sample queries)
+        self.fvs = {}              # input name -> float value of each shadow sample
         self.mask = _np.ones(K_SAMPLES, dtype=bool)   # samples known to satisfy the path so far
         global SAMPLE_RNG
         SAMPLE_RNG = _np.random.default_rng(12345 + 7 * getattr(self, 'sample_seed', 0))
